@@ -157,8 +157,11 @@ def drive_map(sc):
     cons = np.stack([_decoy(n, 3, 1), -val], axis=1)
     cfg = {"variables": {"initial_values": [0.0, 0.0]},
            "realizations": {"weights": [float(w) for w in sc["cw"]], "realization_min_success": 1},
-           "objectives": {"weights": [1.0, 1.0], "realization_filters": m[:2]},
-           "nonlinear_constraints": {"lower_bounds": [-INF, -INF], "upper_bounds": [0.0, 0.0], "realization_filters": m[2:]},
+           # three estimator entries (all the mean) addressed by maps that are not monotone
+           "objectives": {"weights": [1.0, 1.0], "realization_filters": m[:2], "function_estimators": [2, 0]},
+           "nonlinear_constraints": {"lower_bounds": [-INF, -INF], "upper_bounds": [0.0, 0.0], "realization_filters": m[2:],
+                                     "function_estimators": [1, 0]},
+           "function_estimators": [{"method": "mean"}, {"method": "mean"}, {"method": "mean"}],
            "realization_filters": [
                {"method": "sort-objective", "options": {"sort": [0], "first": sc["first"], "last": sc["last"]}},
                {"method": "sort-constraint", "options": {"sort": 1, "first": sc["first2"], "last": sc["last2"]}}]}
@@ -168,16 +171,20 @@ def drive_map(sc):
     res, outcome = outcome_of(lambda: ensemble_evaluator(config, ev).calculate(
         np.zeros(2), compute_functions=True, compute_gradients=False))
     ow = [[], []]; cw = [[], []]
+    fvals = nums([None] * 4)
     if res is not None:
         r = res[0]
         if r.functions is None:
             outcome = "nofunctions"
+        else:
+            fvals = nums(list(r.functions.objectives) + list(r.functions.constraints))
         if r.realizations.objective_weights is not None:
             ow = nums(r.realizations.objective_weights)
         if r.realizations.constraint_weights is not None:
             cw = nums(r.realizations.constraint_weights)
     ev_ = {"ev": "SortMap", **{k: sc[k] for k in ("n", "val", "failed", "cw", "map", "first", "last", "first2", "last2")},
-           "outcome": outcome, "ow": ow, "cwt": cw}
+           "outcome": outcome, "ow": ow, "cwt": cw, "fvals": fvals,
+           "cols": [[int(v) for v in col] for col in (objs[:, 0], objs[:, 1], cons[:, 0], cons[:, 1])]}
     feats = {"nontrivial": any(x >= 0 for x in m) and any(x < 0 for x in m) or len(set(m)) == 3,
              "key": f"map|{sc['val']}|{sc['failed']}|{m}|{sc['first']}-{sc['last']}|{sc['first2']}-{sc['last2']}",
              "unfiltered_next_to_filtered": any(x >= 0 for x in m) and any(x < 0 for x in m), "fam": "map"}
